@@ -4,5 +4,10 @@ MCLams == { <<1, 2>>, <<1, 1>>, <<2, 1>> }          \* lambda = 1/2, 1, 2
 MCLo == {-1, 0, 1, 2}
 MCHi == {-1, 0, 1}
 MCBin == {0, 1}
-MCLamsBig == MCLams \cup { <<3, 2>>, <<1, 4>> }
+\* quick tier: below 1, equal to 1, above 1 and not a power of two (numerator and denominator both non-trivial)
+MCLamsQ == { <<1, 2>>, <<1, 1>>, <<3, 2>> }         \* lambda = 1/2, 1, 3/2
+\* thorough tier: powers of two and values that are none (3/2; 3 is in MCLamsHet; denominators >= 4 overflow TLC's 32-bit minors of 3 x 3 matrices)
+MCLamsBig == MCLams \cup { <<3, 2>> }
+\* heterogeneous populations (protocol model Bandit_MCh.cfg): one value below 1, one above 1 that is no power of two
+MCLamsHet == { <<1, 2>>, <<3, 1>> }
 ================================================================================
